@@ -327,6 +327,14 @@ def r2_one_decision(ctx: Context, rule: str = "C10.R2") -> None:
             if lp0 is not None and norm(lp0.iter) in ("tasks_to_be_scheduled", "tasks_to_variables.values()") and isinstance(a.args[0], ast.Call) \
                     and call_name(a.args[0]) == "create_task_placement" and not any(k.arg == "worker_pool_id" and not isinstance(k.value, ast.Constant) for k in a.args[0].keywords):
                 fallback.append(a)
+        # the same written as `result.extend(<unplaced decision> for <task> in <offered tasks>)`
+        for c in [c for c in calls_in(sch, "extend") if norm(c.func.value) == res and c.args
+                  and isinstance(c.args[0], (ast.ListComp, ast.GeneratorExp))]:
+            comp = c.args[0]
+            if len(comp.generators) == 1 and not comp.generators[0].ifs and norm(comp.generators[0].iter) in ("tasks_to_be_scheduled", "tasks_to_variables.values()") \
+                    and isinstance(comp.elt, ast.Call) and call_name(comp.elt) == "create_task_placement" \
+                    and not any(k.arg == "worker_pool_id" and not isinstance(k.value, ast.Constant) for k in comp.elt.keywords):
+                fallback.append(c)
         ctx.check(bool(fallback), rule, f"{q}|no-solution branch answers every offered task", loc(sch), f"{len(fallback)} fallback site(s)",
                   f"when the solver finds no solution {cname} returns no decision for the offered tasks")
         for a in apps:
